@@ -391,6 +391,8 @@ func init() {
 	reg([]string{"bytes.NewBuffer"}, []string{frRegion, BL}, func(e *Eng, fr *Frame, c *ssa.CallCommon, args []*Val, st *State, g string, pos token.Pos) *Val {
 		ref := e.alloc(st, "bytes.NewBuffer")
 		blSet(e, st, ref, sx("s_len", args[0].T))
+		e.sc.declare("buf_adopted", "(declare-fun buf_adopted (Int) Bool)")
+		e.sc.assume(eq(sx("buf_adopted", ref), not(eq(sx("s_arr", args[0].T), "0"))), "bytes.NewBuffer(x) adopts x's array unless x is nil")
 		return &Val{T: ref, Typ: c.Signature().Results().At(0).Type(), KnownLen: -1}
 	})
 	reg([]string{"(*bytes.Buffer).Len"}, nil, func(e *Eng, fr *Frame, c *ssa.CallCommon, args []*Val, st *State, g string, pos token.Pos) *Val {
@@ -401,8 +403,16 @@ func init() {
 	})
 	reg([]string{"(*bytes.Buffer).Bytes"}, []string{frRegion}, func(e *Eng, fr *Frame, c *ssa.CallCommon, args []*Val, st *State, g string, pos token.Pos) *Val {
 		b := bufRecv(e, fr, c, args, g, pos)
+		// the buffer's array may have been allocated by any write since the buffer was created (writes do not move the
+		// allocation frontier in this model): let the frontier move here, so that the result may be such an array
+		oldFr := e.get(st, frRegion, "Int")
+		e.havocReg(st, frRegion)
+		e.sc.assume(sx(">", e.get(st, frRegion, "Int"), oldFr), "frontier moves over buf.Bytes()")
 		v := e.havocVal(st, "bufbytes", c.Signature().Results().At(0).Type())
 		e.sc.assume(eq(sx("s_len", v.T), blGet(e, st, b)), "len(buf.Bytes()) == buf.Len()")
+		// a buffer that did not adopt a caller's slice allocates its array after it was itself created
+		e.sc.declare("buf_adopted", "(declare-fun buf_adopted (Int) Bool)")
+		e.sc.assume(implies(not(sx("buf_adopted", b)), or(eq(sx("s_arr", v.T), "0"), sx(">", sx("s_arr", v.T), b))), "buf.Bytes(): the array of a buffer that adopted none is younger than the buffer")
 		e.note("bytes.Buffer.Bytes() is modelled as a snapshot of the buffer (aliasing with later writes not modelled)")
 		return v
 	})
